@@ -87,6 +87,13 @@ def check_index(idx, idx_for_oracle=None, expect_type=None):
     if isinstance(want[1], int):
         if not isinstance(r, np.ndarray) or not np.array_equal(r, SIGS[want[1]]) or r.dtype != np.dtype('u4'):
             return False, f'expected signature {want[1]}, got {r!r}'
+        # documented: sizeof(i) == len(collection[i])
+        try:
+            sz = coll.sizeof(idx)
+        except Exception as e:   # noqa
+            return False, f'sizeof({idx!r}) raised {type(e).__name__} for a valid index'
+        if int(sz) != len(SIGS[want[1]]):
+            return False, f'sizeof({idx!r}) == {int(sz)} but the signature there has {len(SIGS[want[1]])} k-mers'
         return True, None
     sel = [SIGS[j] for j in want[1]]
     if len(r) != len(sel) or not all(np.array_equal(a, b) for a, b in zip(r, sel)):
@@ -95,6 +102,11 @@ def check_index(idx, idx_for_oracle=None, expect_type=None):
         return False, 'sub-collection lost kmerspec / dtype'
     if not (isinstance(r, (SignatureArray, SignatureList))):
         return False, f'sub-collection has type {type(r).__name__}'
+    for j in range(-len(sel), len(sel)):
+        if int(r.sizeof(j)) != len(sel[j]):
+            return False, f'sub-collection sizeof({j}) == {int(r.sizeof(j))} but that signature has {len(sel[j])} k-mers'
+    if [int(x) for x in r.sizes()] != [len(x) for x in sel]:
+        return False, f'sub-collection sizes() == {list(r.sizes())}'
     return True, None
 
 
